@@ -122,7 +122,8 @@ def _pat(n, s):
 
 LENGTHS = (0, 1, 15, 16, 17, 31, 32, 33, 48, 64, 69, 128, 133)
 AAD = (0, 1, 16, 17, 40, 64)
-STARTS = (1, 2, 7, (1 << 8) - 1, (1 << 16) - 2, (1 << 31) - 1, (1 << 32) - 1, (1 << 40) - 1, (1 << 63) - 1)
+# every value of ntz() is reached: a row starting at block counter 2^k - 1 processes the blocks 2^k - 1, 2^k, 2^k + 1
+STARTS = (1, 2, 7, (1 << 16) - 2) + tuple((1 << k) - 1 for k in range(3, 64))
 
 
 def _pieces(n, how):
